@@ -80,6 +80,13 @@ def run(e: Engine, rep: Report):
              'the queue drops before the policy chain runs is stored for '
              'nobody')
     p12(e, rep)
+    rep.rule('P13', 'envelopes are not told apart by id(): the queue and the '
+             'policies never key a set / dict / comparison on the id() of an '
+             'object - an id is unique only among objects alive at the same '
+             'time, and the chain frees the envelope a policy replaced while '
+             'it makes the copies: a fresh copy that gets the number of a '
+             'dead envelope counts as "already scheduled" and is dropped')
+    p13(e, rep)
     rep.rule('P7', 'policy objects do not share state: no class-level '
              'mutable object of a policy class is changed in place through '
              'self without __init__ giving each instance its own')
@@ -1429,3 +1436,40 @@ def p12(e: Engine, rep: Report):
     elif not bad:
         rep.ok('P12', QUEUE, 'Queue never writes `.recipients`',
                reason='%d methods scanned' % n, nontrivial=False)
+
+
+def p13(e: Engine, rep: Report):
+    n = 0
+    k = 0
+    for f in sorted(e.p.functions.values(), key=lambda f: f.qname):
+        mn = f.module.name
+        if not (mn == 'slimta.queue' or mn.startswith('slimta.policy')):
+            continue
+        k += 1
+        bound = set(f.params) | {
+            x.id for x in walk_own(f.node) if isinstance(x, ast.Name) and
+            isinstance(x.ctx, ast.Store)}
+        for x in walk_own(f.node):
+            if isinstance(x, ast.Call) and isinstance(x.func, ast.Name) and \
+                    x.func.id == 'id' and 'id' not in bound and \
+                    len(x.args) == 1:
+                n += 1
+                rep.evaluations += 1
+                rep.functions.add(f.qname)
+                rep.bad('P13', f.qname, '`%s`' % ' '.join(
+                    ast.unparse(x).split())[:40],
+                    '%s identifies an object by `%s`: the number is reused '
+                    'as soon as the object is freed, so two different '
+                    'envelopes of one policy run (a replaced one and a copy '
+                    'made after it was dropped) can carry the same key - the '
+                    'later one is taken for the earlier and never stored: '
+                    'its recipients vanish' % (f.name, ' '.join(
+                        ast.unparse(x).split())[:40]), loc=f.loc(x))
+    rep.evaluations += 1
+    if k < 5:
+        rep.error('anchor vanished: functions of slimta.queue / '
+                  'slimta.policy (%d)' % k)
+    elif n == 0:
+        rep.ok('P13', 'slimta.queue', 'no id() of an object in %d functions '
+               'of the queue and the policies' % k,
+               reason='envelopes are held by reference', nontrivial=False)
